@@ -8,7 +8,7 @@ coq/Props/C10.v."""
 from harness.props import _meta
 
 PROP, NUM = 'C10', 10
-SOURCES = _meta.available(['C01', 'C02', 'C03', 'C04', 'C05', 'C06', 'C07', 'C08', 'C09', 'C14', 'C16', 'C17', 'C19'])
+SOURCES = _meta.available(['C01', 'C02', 'C03', 'C04', 'C05', 'C06', 'C07', 'C08', 'C09', 'C14', 'C16', 'C17', 'C19', 'C21'])
 PROPS_FILES = ['Props/C10.v'] + _meta.props_files(SOURCES)
 MODES = ['nojit', 'bounds']
 MODES_THOROUGH = ['nojit', 'bounds']
